@@ -173,6 +173,13 @@ def leaves():
     for neg in (False, True):
         out.append(packages.PackageRestrictionMulti(("category", "package"), values.FunctionRestriction(_is_a_x), negate=neg))
         out.append(packages.PackageRestrictionMulti(("package", "fullver"), values.FunctionRestriction(_is_x_1), negate=neg))
+    # counting groups: their members are not necessary conditions (at-most-one-of holds when none does)
+    from pkgcore.restrictions import boolean, restriction
+    ca, cb, px = out[0], packages.PackageRestriction("category", values.StrExactMatch("b")), out[1]
+    for cls in (boolean.AtMostOneOfRestriction, boolean.JustOneRestriction):
+        for neg in (False, True):
+            out.append(cls(ca, cb, node_type=restriction.package_type, negate=neg))
+            out.append(cls(ca, px, node_type=restriction.package_type, negate=neg))
     return out
 
 
@@ -317,7 +324,14 @@ def _match_cp(restr, c, p):
     from pkgcore.restrictions import boolean, packages
     if isinstance(restr, boolean.base):
         vals = [_match_cp(x, c, p) for x in restr.restrictions]
-        r = all(vals) if isinstance(restr, boolean.AndRestriction) else any(vals)
+        if isinstance(restr, boolean.AndRestriction):
+            r = all(vals)
+        elif isinstance(restr, boolean.OrRestriction):
+            r = any(vals)
+        elif isinstance(restr, boolean.JustOneRestriction):
+            r = sum(vals) == 1 or not vals
+        else:
+            r = sum(vals) <= 1
         return r != restr.negate
     return restr.match(obj)
 
